@@ -176,8 +176,11 @@ def g_result(res):
     return '(%s, inr %s, %s)' % (natlist(res['idx']), g_wire(b[1]), g)
 
 
-def g_case(case, res):
+def g_run(case):
     tpk = 'None' if case['table_pk'] is None else '(Some %s)' % zlist(case['table_pk'])
-    return 'c30_eqb (c30_run %s %s %s %s %s %s) %s' % (
-        zlist(case['names']), g_types(case['types']), natlist(case['server_pk']), tpk, zl(case['pv']),
-        g_input(case['input']), g_result(res))
+    return 'c30_run %s %s %s %s %s %s' % (zlist(case['names']), g_types(case['types']), natlist(case['server_pk']), tpk,
+                                          zl(case['pv']), g_input(case['input']))
+
+
+def g_case(case, res):
+    return 'c30_eqb (%s) %s' % (g_run(case), g_result(res))
